@@ -424,11 +424,18 @@ func buildField(ww *conversionVisitor, node sourcewalk.FieldNode) (*descriptorpb
 
 		if st.Float.ListRules != nil {
 			ww.file.ensureImport(j5ListAnnotationsImport)
-			proto.SetExtension(desc.Options, list_j5pb.E_Field, &list_j5pb.FieldConstraint{
-				Type: &list_j5pb.FieldConstraint_Float{
+			constraint := &list_j5pb.FieldConstraint{}
+			if st.Float.Format == schema_j5pb.FloatField_FORMAT_FLOAT64 {
+				// the reader looks in the slot matching the proto kind
+				constraint.Type = &list_j5pb.FieldConstraint_Double{
+					Double: st.Float.ListRules,
+				}
+			} else {
+				constraint.Type = &list_j5pb.FieldConstraint_Float{
 					Float: st.Float.ListRules,
-				},
-			})
+				}
+			}
+			proto.SetExtension(desc.Options, list_j5pb.E_Field, constraint)
 		}
 
 		return desc, nil
